@@ -1,10 +1,13 @@
 import QModel.C02
+import QGen.C02
 import QProofs.Bridge
 import Mathlib.Algebra.Star.Basic
 import Mathlib.Logic.Equiv.Fin.Basic
 import Mathlib.LinearAlgebra.Matrix.NonsingularInverse
 import Mathlib.LinearAlgebra.Matrix.ConjTranspose
 import Mathlib.Tactic.Ring
+import Mathlib.Tactic.Linarith
+import Mathlib.Tactic.FieldSimp
 import Mathlib.Algebra.Ring.MinimalAxioms
 import Mathlib.Algebra.Field.Rat
 import Mathlib.Algebra.Order.Ring.Rat
@@ -723,5 +726,307 @@ theorem krausRaw_sum (B : Basis CRat d (d * d)) (hs : Mat CRat (d * d) (d * d))
     apply CRat.ext' <;> simp [CRat.ofRat]
 
 end krauslink
+
+
+/-! ## truncate_hs on lists; Hermitian inputs have real coefficients -/
+section trunc
+
+theorem truncEntry_error (eps : Rat) (z : CRat) (e : Err) (h : truncEntry eps z = .error e) :
+    e = .imagNonZero ∧ ¬ rabs z.im < eps ∧ z.im ≠ 0 := by
+  unfold truncEntry at h
+  by_cases h1 : rabs z.im < eps <;> by_cases h2 : z.im = 0 <;> simp [h1, h2] at h
+  exact ⟨h.symm, h1, h2⟩
+
+theorem truncEntry_ok (eps : Rat) (z : CRat) (r : Rat) (h : truncEntry eps z = .ok r) :
+    (rabs z.im < eps ∨ z.im = 0) ∧ ((r = z.re ∧ ¬ rabs z.re < eps) ∨ (r = 0 ∧ rabs z.re < eps)) := by
+  unfold truncEntry at h
+  by_cases h1 : rabs z.im < eps <;> by_cases h2 : z.im = 0 <;> by_cases h3 : rabs z.re < eps <;>
+    simp [h1, h2, h3] at h <;> simp [h1, h2, h3, h.symm]
+
+theorem truncEntry_isOk_iff (eps : Rat) (z : CRat) :
+    (∃ r, truncEntry eps z = .ok r) ↔ (rabs z.im < eps ∨ z.im = 0) := by
+  unfold truncEntry
+  by_cases h1 : rabs z.im < eps <;> by_cases h2 : z.im = 0 <;> simp [h1, h2]
+
+theorem truncList_nil (eps : Rat) : truncList eps [] = .ok [] := rfl
+
+theorem truncList_cons (eps : Rat) (z : CRat) (l : List CRat) :
+    truncList eps (z :: l) =
+      (match truncEntry eps z with
+       | .error e => .error e
+       | .ok r => match truncList eps l with
+         | .error e => .error e
+         | .ok rs => .ok (r :: rs)) := by
+  unfold truncList
+  rw [List.mapM_cons]
+  cases truncEntry eps z with
+  | error e => rfl
+  | ok r =>
+    cases h : List.mapM (truncEntry eps) l with
+    | error e => simp [bind, Except.bind, h]
+    | ok rs => simp [bind, Except.bind, h, pure, Except.pure]
+
+/-- `truncate_hs` accepts a list iff it accepts every entry; the result is entrywise -/
+theorem truncList_ok (eps : Rat) (l : List CRat) (r : List Rat) (h : truncList eps l = .ok r) :
+    r.length = l.length ∧ ∀ (i : Nat) (hi : i < l.length) (hr : i < r.length), truncEntry eps l[i] = .ok r[i] := by
+  induction l generalizing r with
+  | nil =>
+    rw [truncList_nil] at h
+    injection h with h; subst h; simp
+  | cons z l ih =>
+    rw [truncList_cons] at h
+    cases hz : truncEntry eps z with
+    | error e => simp [hz] at h
+    | ok x =>
+      cases hl : truncList eps l with
+      | error e => simp [hz, hl] at h
+      | ok rs =>
+        simp [hz, hl] at h
+        subst h
+        obtain ⟨h1, h2⟩ := ih rs hl
+        refine ⟨by simp [h1], ?_⟩
+        intro i hi hr
+        cases i with
+        | zero => simpa using hz
+        | succ k => simpa using h2 k (by simpa using hi) (by simpa using hr)
+
+theorem truncList_error (eps : Rat) (l : List CRat) (e : Err) (h : truncList eps l = .error e) :
+    e = .imagNonZero ∧ ∃ z ∈ l, ¬ rabs z.im < eps ∧ z.im ≠ 0 := by
+  induction l with
+  | nil => rw [truncList_nil] at h; cases h
+  | cons z l ih =>
+    rw [truncList_cons] at h
+    cases hz : truncEntry eps z with
+    | error e' =>
+      simp [hz] at h; subst h
+      obtain ⟨h1, h2, h3⟩ := truncEntry_error eps z e' hz
+      exact ⟨h1, z, by simp, h2, h3⟩
+    | ok x =>
+      cases hl : truncList eps l with
+      | error e' =>
+        simp [hz, hl] at h; subst h
+        obtain ⟨h1, w, hw, h2⟩ := ih hl
+        exact ⟨h1, w, by simp [hw], h2⟩
+      | ok rs => simp [hz, hl] at h
+
+theorem truncList_isOk_iff (eps : Rat) (l : List CRat) :
+    (∃ r, truncList eps l = .ok r) ↔ ∀ z ∈ l, rabs z.im < eps ∨ z.im = 0 := by
+  constructor
+  · rintro ⟨r, hr⟩ z hz
+    obtain ⟨i, hi, rfl⟩ := List.mem_iff_getElem.1 hz
+    obtain ⟨h1, h2⟩ := truncList_ok eps l r hr
+    exact (truncEntry_ok eps _ _ (h2 i hi (by omega))).1
+  · intro h
+    cases hl : truncList eps l with
+    | ok r => exact ⟨r, rfl⟩
+    | error e =>
+      obtain ⟨_, z, hz, h1, h2⟩ := truncList_error eps l e hl
+      rcases h z hz with h3 | h3
+      · exact absurd h3 h1
+      · exact absurd h3 h2
+
+theorem CRat.im_eq_zero_of_star_eq (z : CRat) (h : star z = z) : z.im = 0 := by
+  have := congrArg CRat.im h
+  simp [Star.star] at this
+  linarith
+
+theorem CRat.star_eq_of_im_eq_zero (z : CRat) (h : z.im = 0) : star z = z := by
+  apply CRat.ext' <;> simp [Star.star, h]
+
+end trunc
+
+section hermcoef
+variable {K : Type} [CommRing K] [StarRing K] {d n : Nat}
+
+/-- `ρ` Hermitian (entrywise) -/
+def IsHermitianMat (rho : Mat K d d) : Prop := ∀ i j, star (rho.get j i) = rho.get i j
+
+/-- Hermitian basis, Hermitian matrix ⇒ every coefficient `vdot(B_a, ρ)` is self-conjugate (real) -/
+theorem coeff_real_of_hermitian (B : Basis K d n) (hB : HermitianBasis B) (rho : Mat K d d)
+    (hr : IsHermitianMat rho) (a : Fin n) :
+    star ((vecOfDensityRaw B rho).get a) = (vecOfDensityRaw B rho).get a := by
+  have e : (vecOfDensityRaw B rho).get a = vdot (B.get a) rho := by
+    simp [vecOfDensityRaw, Mat.mulVec, basisConj, vdot, conj_eq_star]
+  rw [e, vdot_eq_double, star_sum]
+  simp only [star_sum, star_mul', star_star]
+  rw [Finset.sum_comm]
+  apply Finset.sum_congr rfl; intro i _
+  apply Finset.sum_congr rfl; intro j _
+  rw [← hB a i j, ← hr i j, star_star]
+
+/-- complete Hermitian basis, all coefficients self-conjugate ⇒ the matrix is Hermitian -/
+theorem hermitian_of_coeff_real (B : Basis K d n) (hB : HermitianBasis B) (hC : Complete B) (rho : Mat K d d)
+    (hc : ∀ a, star ((vecOfDensityRaw B rho).get a) = (vecOfDensityRaw B rho).get a) :
+    IsHermitianMat rho := by
+  have hrec : densitySparse B (vecOfDensityRaw B rho) = rho := by
+    apply flat_injective
+    apply Vec.toV_injective
+    rw [toV_densitySparse_flat, toV_vecOfDensityRaw, Matrix.mulVec_mulVec, (complete_iff B).1 hC,
+      Matrix.one_mulVec]
+  intro i j
+  rw [← hrec, densitySparse_get, densitySparse_get, star_sum]
+  apply Finset.sum_congr rfl; intro a _
+  rw [star_mul', hc a, hB a i j]
+
+end hermcoef
+
+
+section contract
+
+theorem rabs_nonneg (x : Rat) : 0 ≤ rabs x := by
+  unfold rabs; split <;> linarith
+
+theorem mem_toList_iff_get {α : Type} {n : Nat} (v : Vec α n) (z : α) :
+    z ∈ v.toList ↔ ∃ a : Fin n, v.get a = z := by
+  rw [List.mem_iff_getElem]
+  constructor
+  · rintro ⟨i, hi, rfl⟩
+    have hi' : i < n := by simpa using hi
+    exact ⟨⟨i, hi'⟩, by simp [Vec.get]⟩
+  · rintro ⟨a, rfl⟩
+    exact ⟨a.val, by simp, by simp [Vec.get]⟩
+
+/-- the contract of numpy's kernels used by `to_kraus_matrices_from_hs`, as one hypothesis:
+`eigh` returned a spectral decomposition of the Choi matrix (`C = Σ_e λ_e v_e v_e^†`; orthonormality of the
+`v_e` is not required), `sqrt` is exact on the eigenvalues that pass the zero filter, and the eigenvalues
+inside the filter are exactly zero. -/
+structure EighContract {d : Nat} (B : Basis CRat d (d * d)) (hs : Mat CRat (d * d) (d * d))
+    (eigs : List (EigPair d)) (atolS : Rat) : Prop where
+  spec : ∀ i j, (choiSparse B hs).get i j
+      = (eigs.map fun e => CRat.ofRat e.val * (e.vec.get i * conj (e.vec.get j))).sum
+  sqrt_exact : ∀ e ∈ eigs, closeZero e.val atolS = false → e.sqrtVal * e.sqrtVal = e.val
+  filtered_zero : ∀ e ∈ eigs, closeZero e.val atolS = true → e.val = 0
+
+end contract
+
+section phase
+variable {K : Type} [CommRing K] [StarRing K] {d : Nat}
+
+/-- multiplying every Kraus operator by a unit-modulus scalar (the phase convention of step 3) -/
+def phased (ps : List K) (ks : List (Mat K d d)) : List (Mat K d d) :=
+  List.zipWith (fun p k => k.smul p) ps ks
+
+theorem phased_sum (ps : List K) (ks : List (Mat K d d)) (hp : ∀ p ∈ ps, p * star p = 1)
+    (hlen : ps.length = ks.length) (x y : Fin (d * d)) :
+    ((phased ps ks).map fun k => k.get (pdiv x) (pdiv y) * star (k.get (pmod x) (pmod y))).sum
+      = (ks.map fun k => k.get (pdiv x) (pdiv y) * star (k.get (pmod x) (pmod y))).sum := by
+  induction ps generalizing ks with
+  | nil => cases ks with
+    | nil => simp [phased]
+    | cons k ks => simp at hlen
+  | cons p ps ih =>
+    cases ks with
+    | nil => simp at hlen
+    | cons k ks =>
+      have h1 := hp p (by simp)
+      have := ih ks (fun q hq => hp q (by simp [hq])) (by simpa using hlen)
+      simp only [phased, List.zipWith_cons_cons, List.map_cons, List.sum_cons] at *
+      rw [this]
+      congr 1
+      simp only [Mat.smul, Mat.get_ofFn, star_mul']
+      calc p * k.get (pdiv x) (pdiv y) * (star p * star (k.get (pmod x) (pmod y)))
+          = (p * star p) * (k.get (pdiv x) (pdiv y) * star (k.get (pmod x) (pmod y))) := by ring
+        _ = _ := by rw [h1, one_mul]
+
+end phase
+
+
+section genlemmas
+variable {K : Type} [CommRing K] [StarRing K]
+
+theorem transpose_conjM {m n : Nat} (A : Mat K m n) : Mat.transpose (conjM A) = ctransp A := by
+  apply Mat.ext'; intro i j; simp [Mat.transpose, conjM, ctransp]
+
+theorem conjM_transpose {m n : Nat} (A : Mat K m n) : conjM (Mat.transpose A) = ctransp A := by
+  apply Mat.ext'; intro i j; simp [Mat.transpose, conjM, ctransp]
+
+end genlemmas
+
+
+section phasefix
+variable {d : Nat}
+
+theorem cInv_unit (e : CRat) (h : e.re * e.re + e.im * e.im = 1) : cInv e * star (cInv e) = 1 := by
+  apply CRat.ext'
+  · simp only [cInv, h, CRat.mul_re, Star.star, CRat.conj_re, CRat.conj_im, CRat.one_re]
+    simp only [div_one]; linarith
+  · simp only [cInv, h, CRat.mul_im, Star.star, CRat.conj_re, CRat.conj_im, CRat.one_im]
+    simp only [div_one]; ring
+
+/-- the phase factor has modulus one when numpy's `abs` is exact on the entry it is applied to -/
+theorem phaseFactor_unit (k : Mat CRat d d) (absFlat : Vec Rat (d * d))
+    (habs : ∀ x, ((flat k).get x) ≠ 0 →
+      absFlat.get x * absFlat.get x = ((flat k).get x).re * ((flat k).get x).re + ((flat k).get x).im * ((flat k).get x).im) :
+    phaseFactor k absFlat * star (phaseFactor k absFlat) = 1 := by
+  unfold phaseFactor
+  split
+  · apply CRat.ext' <;> simp [Star.star]
+  · rename_i x hx
+    have hne : (flat k).get x ≠ 0 := by
+      have := List.find?_some hx
+      simpa using this
+    simp only []
+    split
+    · apply cInv_unit
+      have ha := habs x hne
+      set v := (flat k).get x with hv
+      set a := absFlat.get x with haa
+      have hpos : v.re * v.re + v.im * v.im ≠ 0 := by
+        intro h0
+        apply hne
+        have h1 : v.re * v.re ≥ 0 := mul_self_nonneg _
+        have h2 : v.im * v.im ≥ 0 := mul_self_nonneg _
+        have hr : v.re = 0 := by nlinarith
+        have hi : v.im = 0 := by nlinarith
+        apply CRat.ext' <;> simp [hr, hi]
+      have ha0 : a ≠ 0 := by
+        intro h0; rw [h0] at ha; apply hpos; linarith
+      simp only [CRat.mul_re, CRat.mul_im, CRat.ofRat]
+      field_simp
+      nlinarith [ha]
+    · apply CRat.ext' <;> simp [Star.star]
+
+theorem phased_map_sum {α : Type} (l : List α) (f : α → Mat CRat d d) (p : α → CRat)
+    (hp : ∀ e ∈ l, p e * star (p e) = 1) (x y : Fin (d * d)) :
+    (l.map fun e => ((f e).smul (p e)).get (pdiv x) (pmod x) * star (((f e).smul (p e)).get (pdiv y) (pmod y))).sum
+      = (l.map fun e => (f e).get (pdiv x) (pmod x) * star ((f e).get (pdiv y) (pmod y))).sum := by
+  induction l with
+  | nil => simp
+  | cons a l ih =>
+    simp only [List.map_cons, List.sum_cons]
+    rw [ih (fun e he => hp e (by simp [he]))]
+    congr 1
+    have h1 := hp a (by simp)
+    simp only [Mat.smul, Mat.get_ofFn, star_mul']
+    calc p a * (f a).get (pdiv x) (pmod x) * (star (p a) * star ((f a).get (pdiv y) (pmod y)))
+        = (p a * star (p a)) * ((f a).get (pdiv x) (pmod x) * star ((f a).get (pdiv y) (pmod y))) := by ring
+      _ = _ := by rw [h1, one_mul]
+
+/-- numpy's `abs` is exact on the scaled eigenvectors (contract of the phase step) -/
+def AbsContract (eigs : List (EigPair d)) : Prop :=
+  ∀ e ∈ eigs, ∀ x : Fin (d * d),
+    let z := CRat.ofRat e.sqrtVal * e.vec.get x
+    e.absScaled.get x * e.absScaled.get x = z.re * z.re + z.im * z.im
+
+/-- the operators of `krausFull` (phase convention included) have the same `Σ |K⟫⟪K|` as those of `krausRaw` -/
+theorem krausFull_sum (B : Basis CRat d (d * d)) (hs : Mat CRat (d * d) (d * d))
+    (eigs : List (EigPair d)) (atol atolS : Rat) (habs : AbsContract eigs) (i j : Fin (d * d)) :
+    ((krausFull B hs eigs atol atolS).map fun k => (flat k).get i * star ((flat k).get j)).sum
+      = ((krausRaw B hs eigs atol atolS).map fun k => (flat k).get i * star ((flat k).get j)).sum := by
+  unfold krausFull krausRaw
+  split
+  · rfl
+  · simp only [List.map_map, Function.comp_def, flat_get, phaseFix]
+    apply phased_map_sum
+    intro e he
+    have he' : e ∈ eigs := by
+      have := (sortDesc_perm _).mem_iff.1 he
+      exact (List.mem_filter.1 this).1
+    apply phaseFactor_unit
+    intro x _
+    have := habs e he' x
+    simpa [Mat.smul, unflat_get] using this
+
+end phasefix
 
 end QM.C02
